@@ -225,10 +225,17 @@ cpdef _validate(
     if logical_type:
         prepare = LOGICAL_WRITERS.get(logical_type)
         if prepare:
-            datum = prepare(datum, schema)
+            try:
+                datum = prepare(datum, schema)
+            except ValueError:
+                # The value cannot be converted for this logical type (e.g.
+                # a string that is no ISO date), so it does not conform
+                result = False
 
     # explicit, so that cython is faster, but only for Base Validators
-    if record_type == "null":
+    if result is False:
+        pass
+    elif record_type == "null":
         result = validate_null(datum)
     elif record_type == "boolean":
         result = validate_boolean(datum)
